@@ -11,6 +11,8 @@ import (
 	"image/png"
 
 	"github.com/makiuchi-d/gozxing"
+	"github.com/makiuchi-d/gozxing/datamatrix"
+	"github.com/makiuchi-d/gozxing/qrcode"
 	qrdec "github.com/makiuchi-d/gozxing/qrcode/decoder"
 	qrenc "github.com/makiuchi-d/gozxing/qrcode/encoder"
 
@@ -116,6 +118,30 @@ func c14RenderWith(r *fw.Rec, ws *writerSpec, w gozxing.Writer, content string, 
 		hints = map[gozxing.EncodeHintType]interface{}{gozxing.EncodeHintType_MARGIN: margin}
 		if r.Rng.Intn(4) == 0 {
 			hints[gozxing.EncodeHintType_MARGIN] = fmt.Sprint(margin) // string form
+		}
+	}
+	if ws.Name == "QR_CODE" && r.Rng.Intn(3) == 0 {
+		// the level the module matrix was built with, said explicitly (string or typed): the
+		// other hints of the same call keep their meaning
+		if hints == nil {
+			hints = map[gozxing.EncodeHintType]interface{}{}
+		}
+		if r.Rng.Bool() {
+			hints[gozxing.EncodeHintType_ERROR_CORRECTION] = "L"
+		} else {
+			hints[gozxing.EncodeHintType_ERROR_CORRECTION] = qrdec.ErrorCorrectionLevel_L
+		}
+		r.Tally("qr_renderings_with_level_hint_next_to_margin")
+	}
+	if r.Rng.Intn(8) == 0 {
+		// the writer types are exported empty structs: a zero value is a complete writer
+		switch ws.Name {
+		case "QR_CODE":
+			w = &qrcode.QRCodeWriter{}
+			r.Tally("renderings_by_zero_value_writers")
+		case "DATA_MATRIX":
+			w = new(datamatrix.DataMatrixWriter)
+			r.Tally("renderings_by_zero_value_writers")
 		}
 	}
 	var bm *gozxing.BitMatrix
@@ -413,6 +439,8 @@ func c14(c *fw.Ctx) {
 	c.Floor("renderings_scaled", 1000)
 	c.Floor("renderings_with_margin_hint", 1000)
 	c.Floor("renders_via_EncodeWithoutHint", 500)
+	c.Floor("qr_renderings_with_level_hint_next_to_margin", 1000)
+	c.Floor("renderings_by_zero_value_writers", 500)
 	c.Floor("renderings_of_rectangular_2d_symbols", 50)
 	c.Floor("renderings_with_modules_of_33_pixels_or_more", 150)
 	c.Floor("renderings_consumed_as_image", 5000)
